@@ -368,7 +368,8 @@ impl Response {
                         /* capacity for a single line */
                         "data: ".len() + chunk.len() + "\n\n".len()
                     );
-                    for line in chunk.split('\n') {
+                    /* `\r\n` and `\r` are also line breaks in event stream format */
+                    for line in chunk.replace("\r\n", "\n").replace('\r', "\n").split('\n') {
                         message.extend_from_slice(b"data: ");
                         message.extend_from_slice(line.as_bytes());
                         message.push(b'\n');
